@@ -9,6 +9,7 @@ import (
 	"pgregory.net/rapid"
 
 	"verifharness/app"
+	"verifharness/refdec"
 )
 
 var c18Opts = GenOpts{MaxNodes: 4, MultiHalt: true, Langs: true, EchoInput: true, NoEndNodes: true, Separators: true, Flags: true}
@@ -17,6 +18,33 @@ var c18Modes = []app.Mode{{Kind: "long"}, {Kind: "persist", Backend: "mem"}, {Ki
 
 func genC18(t *rapid.T) ModelCase {
 	a := GenApp(t, c18Opts)
+	// language switches are what this property is about: most nodes ask the 'lang'
+	// function (whose n-th call returns the n-th scripted code) when they are entered
+	for i := range a.Nodes {
+		if a.Nodes[i].Name != "_catch" && chancePct(t, 45, "langload") {
+			pre := []app.Instr{{Op: refdec.LOAD, Sym: "lang", Num: 0}}
+			if chancePct(t, 50, "langreload") {
+				// ask again even when an ancestor already loaded it
+				pre = append(pre, app.Instr{Op: refdec.RELOAD, Sym: "lang"})
+			}
+			a.Nodes[i].Code = append(pre, a.Nodes[i].Code...)
+		}
+	}
+	if sp := a.Sym("lang"); sp != nil {
+		// more scripted answers, so that several switches happen along one history
+		extra := rapid.IntRange(0, 3).Draw(t, "extralang")
+		for i := 0; i < extra; i++ {
+			code := langCodesValid[uniformN(t, len(langCodesValid), "code")]
+			if chancePct(t, 20, "badcode") {
+				code = []string{"xx", "NOR", "English", "zzz", "n0r"}[uniformN(t, 5, "bad")]
+			}
+			r := app.Result{Content: code}
+			if chancePct(t, 85, "flag") {
+				r.FlagSet = []uint32{7}
+			}
+			sp.Results = append(sp.Results, r)
+		}
+	}
 	modelFriendly(a)
 	mode := c18Modes[uniformN(t, len(c18Modes), "mode")]
 	return ModelCase{App: a, Inputs: genGuidedHistory(t, a, 12, mode.Kind == "persist"), Mode: mode}
